@@ -190,6 +190,107 @@ def handle (toks : List String) : String :=
       let ys := ((parseNatList yb).map F.decode).toArray
       let rs := ((parseNatList rb).map F.decode).toArray
       firstFails ((List.range ys.size).map fun i => if specRescale2 Fu Fe (qm.toNat! : Rat) k ys[i]! rs[i]! then "ok" else "rescale-error")
+  -- C07: lin07 kernel F x w bias
+  | ["lin07", kernel, f, xt, wt, bt] =>
+      let F := fmtOfName f
+      let bias : Option (T FV) := match parseOneVal bt with | .plain _ b => some b | _ => none
+      let res : Option (T FV) := match kernel, parseOneVal xt, parseOneVal wt with
+        | "fallbackfloat", .plain _ x, .plain _ w => some (linearFloat F x w bias)
+        | k, x, .qb w =>
+          let kk : MmKernel := match k with | "int" => .intMm | "pack" => .int8packMm | _ => .floatMm
+          (match x with
+           | .plain _ t => some (linearQBytes kk F (.plain t) w bias)
+           | .qb q => some (linearQBytes kk F (.quant q) w bias)
+           | _ => none)
+        | _, _, _ => none
+      match res with
+      | some r => s!"{showShape r.shape} {showFT F r}"
+      | none => "bad-op"
+  | ["route07", dev, act, weight, rows, inF, outF, ge24] =>
+      let pl (s : String) : Payload := match s with | "int8" => .int8 | "float8" => .float8 | "f32" => .f32 | "f16" => .f16 | _ => .bf16
+      let c : MmConfig := ⟨pl act, pl weight, rows.toNat!, inF.toNat!, outF.toNat!, ge24 == "1"⟩
+      let k := match dev with | "cpu" => routeCPU c | "cuda" => routeCUDA c | _ => routeMPS c
+      match k with | .floatMm => "float" | .intMm => "int" | .int8packMm => "pack"
+  -- C12: calib12 F mnum mden ev…   (ev = b:<bits> | a:<bits>)
+  | "calib12" :: f :: mn :: md :: evs =>
+      let F := fmtOfName f
+      let m : Rat := (mn.toInt! : Rat) / (md.toNat! : Rat)
+      let events := evs.map fun e =>
+        let v := F.decode ((e.drop 2).toString.toNat!)
+        if e.startsWith "a:" then ScaleEvent.adopt v else ScaleEvent.batch v
+      let fin := calibFold F m events
+      let spec := emaSpec F m events none
+      s!"{F.encode fin} {match spec with | some v => toString (F.encode v) | none => "none"}"
+  -- C13: hooks13 <trace as nested parens, e.g. (1(2))(3)>  → final pre ids, post ids, stack depth, nextId
+  | ["hooks13", tr] =>
+      let rec parse (cs : List Char) (fuel : Nat) : Trace × List Char :=
+        match fuel with
+        | 0 => (.nil, cs)
+        | fuel + 1 =>
+          match cs with
+          | '(' :: rest =>
+            let digits := rest.takeWhile Char.isDigit
+            let id := (String.ofList digits).toNat!
+            let (inner, r1) := parse (rest.dropWhile Char.isDigit) fuel
+            match r1 with
+            | ')' :: r2 =>
+              let (next, r3) := parse r2 fuel
+              (.ctx id inner next, r3)
+            | _ => (.nil, r1)
+          | _ => (.nil, cs)
+      let (t, _) := parse tr.toList (tr.length + 1)
+      let g0 : HookState := ⟨[], [], 0, []⟩
+      let g := runTrace g0 t
+      s!"{g.preHooks.length} {g.postHooks.length} {g.modeStack.length} {g.nextId}"
+  -- hookev13 e1 e2 x x …  → state after every event: pre,post,stack;…
+  | "hookev13" :: evs =>
+      let r0 : HookRun := ⟨⟨[], [], 0, []⟩, []⟩
+      let (_, outs) := evs.foldl (fun (acc : HookRun × List String) e =>
+        let ev := if e.startsWith "e" then HookEvent.enter ((e.drop 1).toString.toNat!) else HookEvent.exit
+        let r := acc.1.step ev
+        (r, acc.2 ++ [s!"{r.g.preHooks.length},{r.g.postHooks.length},{r.g.modeStack.length}"])) (r0, [])
+      ";".intercalate outs
+  -- C08: quant08 tree filter weights activations
+  | ["quant08", tree, filt, w, a] =>
+      let (m, _) := parseMod tree.toList
+      let f : Option (List Nat) := if filt == "none" then none else some (parseNatList filt)
+      showMod (quantizeTree ⟨f, qtOfName? w, qtOfName? a⟩ m)
+  | ["fwd08", kind, acts, inp, outq] =>
+      let ik : InKind := match inp with | "float" => .float | "same" => .quantSameQtype | _ => .quantOther
+      let oq : Option Bool := match outq with | "same" => some true | "other" => some false | _ => none
+      let tr := forwardTrace (kindOfName kind) (acts == "1") ik oq
+      ",".intercalate (tr.map fun s => match s with
+        | .requantInput => "requantInput" | .quantizeInput => "quantizeInput" | .qforward => "qforward"
+        | .requantOutput => "requantOutput" | .quantizeOutput => "quantizeOutput")
+  | ["store09", q, rows, cols, gs] =>
+      let qt := (QType.ofName q).getD .qint8
+      let g : Option Nat := if gs == "none" then none else some gs.toNat!
+      s!"{frozenPayloadBytes qt rows.toNat! cols.toNat! g} {frozenScaleCount qt rows.toNat! cols.toNat! g}"
+  -- C10: meta strings and flattened key sets
+  | ["meta10", kind, vals] =>
+      let l := parseIntList vals
+      let v : PyMeta := match kind with
+        | "int" => .int (l.headD 0) | "none" => .none | "list" => .list l | _ => .tuple l
+      let str := v.str
+      let back := match PyMeta.parse str with | some w => if w == v then "roundtrip-ok" else "roundtrip-differs" | none => "parse-fails"
+      str.replace " " "_" ++ " " ++ back
+  | ["parse10", str] =>
+      match PyMeta.parse (str.replace "_" " ") with
+      | some (.int n) => s!"int {n}" | some .none => "none" | some (.list l) => s!"list {showIntList l}" | some (.tuple l) => s!"tuple {showIntList l}"
+      | none => "error"
+  | "ser10" :: "qbytes" :: pre :: qt :: axis :: size :: stride :: [] =>
+      let ax : Option Int := if axis == "none" then none else some axis.toInt!
+      let q : QBytesSer := ⟨"D", "S", qt, ax, parseIntList size, parseIntList stride⟩
+      let sd := q.flatten pre
+      let back := match QBytesSer.unflatten pre sd with | some r => if r == q then "roundtrip-ok" else "roundtrip-differs" | none => "unflatten-fails"
+      " ".intercalate (sd.map fun kv => kv.1 ++ "=" ++ (match kv.2 with | .tensor _ => "T" | .str t => t.replace " " "_")) ++ " " ++ back
+  | "ser10" :: "qbits" :: pre :: qt :: axis :: gs :: size :: stride :: bits :: psize :: pstride :: [] =>
+      let ax : Option Int := if axis == "none" then none else some axis.toInt!
+      let g : Option Int := if gs == "none" then none else some gs.toInt!
+      let q : QBitsSer := ⟨⟨"P", bits.toNat!, parseIntList psize, parseIntList pstride⟩, "S", "Z", qt, ax, g, parseIntList size, parseIntList stride⟩
+      let sd := q.flatten pre
+      let back := match QBitsSer.unflatten pre sd with | some r => if r == q then "roundtrip-ok" else "roundtrip-differs" | none => "unflatten-fails"
+      " ".intercalate (sd.map fun kv => kv.1 ++ "=" ++ (match kv.2 with | .tensor _ => "T" | .str t => t.replace " " "_")) ++ " " ++ back
   -- C04
   | ["pack", bits, shape, data] =>
       let t : T Nat := ⟨parseShape shape, (parseNatList data).toArray⟩
